@@ -340,6 +340,11 @@ def main():
         closure.append(m)
         todo += re.findall(r'use crate::props::(\w+)::', open(os.path.join(VF, 'props', m + '.rs')).read())
     pmods = ['props::' + p for p in sorted(closure)] + (['lem', 'alg', 'alg2'] if closure else [])
+    # a lemma module rests on the contracts of the views it mentions: those views are verified in the same run
+    for m in closure:
+        for v in re.findall(r'crate::views::(\w+)', open(os.path.join(VF, 'props', m + '.rs')).read()):
+            if 'views::' + v not in mods and v in rep.get('views', [v]) and v not in rep.get('broken', {}):
+                mods.append('views::' + v)
     if pid == 'C18' and rep.get('unbounded_buffers'):
         print('MACHINERY: buffer fields without a declared C18 bound: %s (needs contract work, not a verdict)' % rep['unbounded_buffers']); sys.exit(2)
     n_canaries = len(re.findall(r'proof fn canary_', '\n'.join(gen_lines)))
@@ -395,7 +400,7 @@ def main():
             print('MACHINERY: unstable proof (failed once, passed on re-run): %s' % [(f['module'], f['fn'], f['label']) for f in unstable]); sys.exit(2)
         new = [(f, k) for f, k in new if f not in unstable]
     # ---- obligations of this property
-    obl = [o for o in lmap.values() if pid in o['tags']]
+    obl = [o for o in lmap.values() if pid in o['tags'] and ('views::' + o['module']) in mods]   # only clauses of modules verified in this run
     fnres = fn_results(res['json'])
     lemma_fns = [k for k, v in fnres.items() if '::props::' in k]
     n_obl = len(obl) + len(lemma_fns)
